@@ -19,7 +19,13 @@ def inverse_power_method(A: sp.csc_matrix, m: float = 0., B: sp.csc_matrix = Non
     """
     n = A.shape[0]
     B = sp.eye(n, format="csc") if B is None else B
-    solve = sp.linalg.factorized(A - m * sp.eye(n))
+    shifted = (A - m * sp.eye(n)).tocsc()
+    try:
+        solve = sp.linalg.factorized(shifted)
+    except RuntimeError:
+        # m is exactly an eigenvalue of A (e.g. a connection Laplacian that admits a parallel field): the factorization fails.
+        # A tiny change of the shift makes the system solvable without changing which eigenvalue is the closest one.
+        solve = sp.linalg.factorized((shifted + 1e-8 * max(abs(shifted).max(), 1e-300) * sp.eye(n)).tocsc())
     x = np.random.random(n)
 
     A_is_hermitian = (A.dtype==complex)
